@@ -489,3 +489,18 @@ func vModelOsRemove(name string) error {
 
 //@ model s2.NewWriter
 func vModelS2NewWriter(w io.Writer, opts ...s2.WriterOption) *s2.Writer { return new(s2.Writer) }
+
+// bitmap.Min: the smallest set bit, or (0, false) for an empty bitmap.
+//
+//@ model bitmap.(Bitmap).Min
+func vModelBitmapMin(dst bitmap.Bitmap) (uint32, bool) {
+	x := vNondet[uint32]()
+	ok := vNondet[bool]()
+	if !ok {
+		vAssume(vForall(0, len(dst), func(i int) bool { return dst[i] == 0 }))
+		return 0, false
+	}
+	vAssume(int(x>>6) < len(dst) && vBit(dst, x))
+	vAssume(vForall(0, len(dst)*64, func(j int) bool { return uint32(j) >= x || !vBit(dst, uint32(j)) }))
+	return x, true
+}
